@@ -93,3 +93,13 @@ func VerifTargetUpdate(alpha float64, old, sample int64, err error) (int64, bool
 
 // VerifClientLatency is the "unreachable" latency value.
 const VerifClientLatency = clientLatency
+
+// VerifHook, when set, is called at every verifPoint with the point's name. The
+// harness uses it to hold a goroutine inside a window that no I/O gate bounds.
+var VerifHook func(point string)
+
+func verifPoint(point string) {
+	if h := VerifHook; h != nil {
+		h(point)
+	}
+}
